@@ -22,6 +22,7 @@
    Not modelled here: the in-place rewrite of the scratch buffer by `stringend`'s re-indent pass (reads covered by
    `Props.C11.stringend_reads_in_bounds`; it writes at `w ≤ r`), the heap objects built from the popped data, OOM. -/
 import JanetModel.Parse.Cap
+import JanetModel.Parse.StrIdx
 
 namespace JanetModel.Parse
 open JanetModel.Gen.Parse
@@ -165,10 +166,11 @@ def popstateM : Nat → MP → Value → MP
 def stringendM (m : MP) (sp : SPtr) : MP :=
   let m := m.chk (derefOk m sp)
   let state := readState m sp
-  let bytes :=
-    if hasFlag state.flags PFLAG_LONGSTRING then
-      dedent ((m.p.states.headD default).column - 1) m.p.buf   -- JanetParseState top = p->states[p->statecount - 1];
-    else m.p.buf
+  let long := hasFlag state.flags PFLAG_LONGSTRING
+  -- the two re-indent loops run at index level, in place, on the scratch block (`Parse/StrIdx.lean`): every `*r`, `*(r + 1)`, `*w++ =` is checked
+  let di := dedentI ((m.p.states.headD default).column - 1) m.p.buf   -- JanetParseState top = p->states[p->statecount - 1];
+  let m := m.chk (!long || di.2)
+  let bytes := if long then di.1 else m.p.buf
   let ret := if hasFlag state.flags PFLAG_BUFFER then Value.buf bytes else Value.str bytes
   popstateM m.p.states.length (clearBufM m) ret
 
